@@ -166,6 +166,20 @@ fn filter_programs() -> Vec<(String, String)> {
         v.push((format!("{} in nested block of action", j), format!("@ true {{ if true {{ {} }} }}", j)));
         v.push((format!("{} in loop in action", j), format!("@ true {{ let i = 0; lbl: loop {{ i = i + 1; if i > 2 {{ break; }} {} }} }}", j)));
         v.push((format!("{} in function in action", j), format!("@ true {{ let f = fn() {{ {} }}; f(); }}", j)));
+        // the filter itself nested in another construct
+        for (hn, holder) in [
+            ("function body", "fn w() { □ } w();"),
+            ("uncalled function body", "fn w() { □ }"),
+            ("function literal", "let w = fn() { □ }; w();"),
+            ("nested functions", "fn w() { fn u() { □ } u(); } w();"),
+            ("block", "{ □ }"),
+            ("if branch", "if true { □ }"),
+            ("loop body", "let i = 0; while i < 1 { i = i + 1; □ }"),
+        ] {
+            for (fname, filt) in [("action", format!("@ true {{ {} }}", j)), ("nested block of action", format!("@ true {{ if true {{ {} }} }}", j)), ("end action", format!("@ end {{ {} }}", j))] {
+                v.push((format!("{} in {} of a filter inside a {}", j, fname, hn), holder.replace("□", &filt)));
+            }
+        }
     }
     for (i, val) in crate::p06::truth_values().iter().enumerate() {
         v.push((format!("pattern value #{} with action", i), format!("let v = {}; @ v {{ let l = 1; }}", val.to_src())));
